@@ -248,7 +248,7 @@ class Lab:
         snap = self.snapshot(ws)
         stamps = {p: 0 for p in snap}
         snaps = [snap]
-        edits = 0
+        edits, emptied = 0, False
         for i, op in enumerate(ops, 1):
             ev = {"ev": op["k"]}
             if op["k"] in ("gen", "example"):
@@ -265,7 +265,14 @@ class Lab:
                 if op["k"] == "edit":
                     edits += 1
                     old = open(full, "rb").read()
-                    new = old + ("\n// user edit %d\n" % edits).encode()
+                    # what a user edit is: text appended, the file emptied (once per history: two empty files
+                    # would be one content for two content numbers), or everything replaced
+                    if edits % 3 == 1 and not emptied:
+                        new, emptied = b"", True
+                    elif edits % 3 == 0:
+                        new = ("// replaced by user edit %d\n" % edits).encode()
+                    else:
+                        new = old + ("\n// user edit %d\n" % edits).encode()
                     with open(full, "wb") as f:
                         f.write(new)
                     cids.fix(sha(new), EDITBASE + edits)
